@@ -19,7 +19,7 @@ use serde::Serialize;
 use crate::consts::appconsts::SHARE_SIZE;
 use crate::eds::{EDS_ID_SIZE, EdsId, ExtendedDataSquare};
 use crate::nmt::{Nmt, NmtExt};
-use crate::{DataAvailabilityHeader, Error, Result, Share};
+use crate::{DataAvailabilityHeader, Error, Result, Share, bail_validation};
 
 /// Number of bytes needed to represent [`RowId`] in `multihash`.
 pub const ROW_ID_SIZE: usize = EDS_ID_SIZE + 2;
@@ -99,6 +99,12 @@ impl Row {
     /// This function will propagate errors from [`leopard_codec`] and [`Share`] construction.
     pub fn from_raw(id: RowId, row: RawRow) -> Result<Self> {
         let data_shares = row.shares_half.len();
+
+        // There is no extended data square with an empty row, and the codec
+        // cannot work with no shares at all.
+        if data_shares == 0 {
+            bail_validation!("row has no shares");
+        }
 
         let shares = match row.half_side() {
             RawHalfSide::Left => {
